@@ -12,10 +12,17 @@
    are only observed by the race detector run (harness h_conc). *)
 From Coq Require Import List Bool Arith String Permutation.
 Import ListNotations.
-From BWConc Require Import Conc ConcStatic ConcInv ConcLin ConcThm.
+From BWConc Require Import Conc ConcStruct ConcStatic ConcInv ConcLin ConcThm.
 From BWConc.Gen Require Import LockFactsGen.
 
 (* ================================================================ Part 1: generic theorems *)
+
+(* In all statements a thread runs calls whose path satisfies [path_in M p]: p is one of the listed flat paths of a
+   method of M (loops taken 0/1 times) or ANY unfolding of the method's structured body (loops taken any number of
+   times): *)
+Example C07_path_in_unfolds :
+  forall M p, path_in M p <-> exists m, In m (mt_methods M) /\ (In p (m_paths m) \/ unf (m_body m) p true).
+Proof. intros. unfold path_in. tauto. Qed.
 
 (* (1) model-level race freedom: in no reachable state are two different threads about to access the same location
    (a field of a store/graph object, or a field of a caller-owned options object, possibly shared between
@@ -96,7 +103,7 @@ Print Assumptions C07_deadlock_free.
    methods without a result channel never send or close *)
 Theorem C07_close_once :
   forall M : mtable, close_ok M = true ->
-  forall m p acts, In m (mt_methods M) -> In p (m_paths m) -> run_path p = Some acts ->
+  forall m p acts, In m (mt_methods M) -> (In p (m_paths m) \/ unf (m_body m) p true) -> run_path p = Some acts ->
     if m_chan m then
       (In (ChanNil true) acts /\ count_close acts = 0 /\ ~ In Send acts) \/
       (~ In (ChanNil true) acts /\ count_close acts = 1 /\ no_send_after_close acts)
@@ -107,7 +114,8 @@ Print Assumptions C07_close_once.
 (* the same seen from the thread executing the call *)
 Theorem C07_close_once_call :
   forall M : mtable, close_ok M = true ->
-  forall m c acts, In m (mt_methods M) -> m_chan m = true -> In (c_path c) (m_paths m) ->
+  forall m c acts, In m (mt_methods M) -> m_chan m = true ->
+    (In (c_path c) (m_paths m) \/ unf (m_body m) (c_path c) true) ->
     run_path (c_path c) = Some acts -> ~ In (ChanNil true) acts ->
     count_aclose (call_items c) = 1.
 Proof. exact close_once_call. Qed.
@@ -209,13 +217,36 @@ Theorem C07_lookups_one_function :
 Proof. vm_compute. split; reflexivity. Qed.
 Print Assumptions C07_lookups_one_function.
 
-(* AddTriples, Exist and every lookup are at most one critical section per call (AddTriples: the whole batch) *)
+(* AddTriples, Exist and every lookup are at most one critical section per call (AddTriples: the whole batch);
+   RemoveTriples is one section per loop iteration, i.e. per triple (its skeleton takes the loop once); the
+   store-level operations are one section each *)
 Theorem C07_one_section_per_call :
   one_section_method memory_methods "memory.AddTriples" = true /\
   one_section_method memory_methods "memory.Exist" = true /\
-  forallb (one_section_method memory_methods) memory_lookup_names = true.
+  forallb (one_section_method memory_methods) memory_lookup_names = true /\
+  one_section_method memory_methods "memory.RemoveTriples" = true /\
+  forallb (one_section_method memory_methods)
+          ["memoryStore.NewGraph"; "memoryStore.Graph"; "memoryStore.DeleteGraph"; "memoryStore.GraphNames"] = true.
 Proof. vm_compute. repeat split; reflexivity. Qed.
 Print Assumptions C07_one_section_per_call.
+
+(* ... and for AddTriples, Exist and the lookups this holds for EVERY unfolding of the body: a batch of any size is one
+   critical section, a lookup sending any number of results is one critical section *)
+Theorem C07_one_section_any_batch :
+  forall n m p, In n ("memory.AddTriples" :: "memory.Exist" :: memory_lookup_names) ->
+    find_method n (mt_methods memory_methods) = Some m -> unf (m_body m) p true -> sections_of p <= 1.
+Proof.
+  intros n m p Hn Hf Hu.
+  assert (Hall : forallb (fun n => match find_method n (mt_methods memory_methods) with
+                                   | Some m => match max_acq (m_body m) with Some k => Nat.leb k 1 | None => false end
+                                   | None => false end)
+                         ("memory.AddTriples" :: "memory.Exist" :: memory_lookup_names) = true)
+    by (vm_compute; reflexivity).
+  rewrite forallb_forall in Hall. specialize (Hall n Hn). rewrite Hf in Hall.
+  destruct (max_acq (m_body m)) as [k|] eqn:E; [|discriminate]. apply Nat.leb_le in Hall.
+  pose proof (sections_bound m p k E Hu). eapply Nat.le_trans; eassumption.
+Qed.
+Print Assumptions C07_one_section_any_batch.
 
 (* instances for the real table that need the lock / close discipline only *)
 Theorem C07_memory_deadlock_free :
@@ -247,7 +278,8 @@ Qed.
 Print Assumptions C07_memory_fields_race_free.
 
 Theorem C07_memory_close_once :
-  forall m p acts, In m (mt_methods memory_methods) -> In p (m_paths m) -> run_path p = Some acts ->
+  forall m p acts, In m (mt_methods memory_methods) -> (In p (m_paths m) \/ unf (m_body m) p true) ->
+    run_path p = Some acts ->
     if m_chan m then
       (In (ChanNil true) acts /\ count_close acts = 0 /\ ~ In Send acts) \/
       (~ In (ChanNil true) acts /\ count_close acts = 1 /\ no_send_after_close acts)
@@ -294,7 +326,7 @@ Lemma ex_call_wf n k : Forall (fun c => path_in memory_methods (c_path c)) (ex_c
 Proof.
   unfold ex_call, ex_paths. destruct (find_method n (mt_methods memory_methods)) as [m|] eqn:E.
   - destruct (nth_error (m_paths m) k) as [p|] eqn:E2; [|constructor]. constructor; [|constructor]. cbn.
-    exists m. split; [|eapply nth_error_In; exact E2].
+    exists m. split; [|left; eapply nth_error_In; exact E2].
     clear -E. revert E. generalize (mt_methods memory_methods). induction l as [|a l IH]; cbn; [discriminate|].
     destruct (String.eqb n (m_name a)); intro H; [inversion H; left; reflexivity|right; auto].
   - destruct k; cbn; constructor.
